@@ -183,6 +183,28 @@ func genPath(r *vproto.Rng, style int, rs []shapes.Ring, mn, mx ipt) []ipt {
 				add(q)
 			}
 		}
+	case 7: // ALL vertices strictly inside P, yet some segment leaves P (over a hole, a notch, a gap between members)
+		n := 2
+		if r.Bool() {
+			n = r.Range(3, 6)
+		}
+		crossed := false
+		for try := 0; try < 400 && len(path) < n; try++ {
+			q := ipt{X: ev(r, mn.X, mx.X), Y: ev(r, mn.Y, mx.Y)}
+			if shapes.InRings(rs, q) != 1 {
+				continue
+			}
+			m := len(path) > 0 && segMeetsRings(path[len(path)-1], q, rs)
+			if len(path) == n-1 && !crossed && !m {
+				continue // the last segment must do the crossing
+			}
+			if add(q) && m {
+				crossed = true
+			}
+		}
+		if !crossed {
+			return nil
+		}
 	default: // straight through the middle, 2-3 vertices, starts and ends outside
 		cy := ev(r, mn.Y, mx.Y)
 		add(ipt{X: mn.X - 3 - (mn.X-3)%2 - 2, Y: cy})
@@ -194,6 +216,58 @@ func genPath(r *vproto.Rng, style int, rs []shapes.Ring, mn, mx ipt) []ipt {
 	return path
 }
 
+// notchyShape: a region that two inside points can see each other across: a polygon with holes, a
+// comb / U shape, or a multi-polygon of several members.
+func notchyShape(r *vproto.Rng, kind string) shapes.Shape {
+	if kind == "MPG" {
+		for try := 0; try < 20; try++ {
+			s := shapes.GenShape(r, "MPG", true)
+			if len(s.Polys) >= 2 {
+				return s
+			}
+		}
+	}
+	var pg shapes.Poly
+	switch r.Intn(3) {
+	case 0: // comb: tall and short columns alternate
+		cols := 2*r.Range(1, 3) + 1
+		ring := shapes.Ring{{X: 0, Y: 0}}
+		x := int64(0)
+		var top []shapes.Pt
+		for c := 0; c < cols; c++ {
+			w := int64(r.Range(1, 3))
+			h := int64(r.Range(5, 8))
+			if c%2 == 1 {
+				h = int64(r.Range(1, 2))
+			}
+			top = append(top, shapes.Pt{X: x, Y: h}, shapes.Pt{X: x + w, Y: h})
+			x += w
+		}
+		ring = append(ring, shapes.Pt{X: x, Y: 0})
+		for i := len(top) - 1; i >= 0; i-- {
+			ring = append(ring, top[i])
+		}
+		pg = shapes.Poly{ring}
+	default: // holes
+		for try := 0; try < 20; try++ {
+			var sh shapes.Ring
+			if r.Bool() {
+				sh = shapes.RectRing(0, 0, int64(r.Range(6, 14)), int64(r.Range(6, 14)))
+			} else {
+				sh = shapes.Star(r, r.Range(4, 9), float64(r.Range(7, 12)))
+			}
+			pg = shapes.AddHoles(r, sh, r.Range(1, 2))
+			if len(pg) > 1 {
+				break
+			}
+		}
+	}
+	if kind == "MPG" {
+		return shapes.Shape{Kind: "MPG", Polys: []shapes.Poly{pg}}
+	}
+	return shapes.Shape{Kind: "PG", Polys: []shapes.Poly{pg}} // a box has neither holes nor notches
+}
+
 func toLS(p []ipt) geom.LineString {
 	l := make(geom.LineString, len(p))
 	for i, q := range p {
@@ -203,7 +277,7 @@ func toLS(p []ipt) geom.LineString {
 }
 
 var kinds = []string{"PG", "MPG", "B"}
-var styleCycle = []int{0, 1, 2, 3, 4, 5, 6, 1, 1, 5, 2, 0, 6}
+var styleCycle = []int{0, 1, 2, 3, 4, 5, 6, 7, 1, 1, 5, 2, 0, 6, 7}
 
 func gen(seed uint64, tier string) {
 	out := bufio.NewWriter(os.Stdout)
@@ -240,16 +314,40 @@ func gen(seed uint64, tier string) {
 		emit(l, geom.MultiPolygon{unit, {{{X: 5.5, Y: 0.5}, {X: 7.5, Y: 0.5}, {X: 6.5, Y: 3.5}}}})
 		emit(l, geom.Polygon{})
 	}
+	// all vertices inside, a segment over a hole / a notch / the gap between members (2-vertex and longer)
+	ushape := geom.Polygon{{{X: 0.5, Y: 0.5}, {X: 6.5, Y: 0.5}, {X: 6.5, Y: 5.5}, {X: 4.5, Y: 5.5}, {X: 4.5, Y: 2.5}, {X: 2.5, Y: 2.5}, {X: 2.5, Y: 5.5}, {X: 0.5, Y: 5.5}}}
+	twins := geom.MultiPolygon{{{{X: 0.5, Y: 0.5}, {X: 2.5, Y: 0.5}, {X: 2.5, Y: 2.5}, {X: 0.5, Y: 2.5}}}, {{{X: 3.5, Y: 0.5}, {X: 5.5, Y: 0.5}, {X: 5.5, Y: 2.5}, {X: 3.5, Y: 2.5}}}}
+	for _, c := range []struct {
+		l geom.LineString
+		p geom.Geom
+	}{
+		{geom.LineString{{X: 1.5, Y: 1}, {X: 3.5, Y: 2}}, sq},
+		{geom.LineString{{X: 1.5, Y: 1}, {X: 3.5, Y: 1.5}, {X: 1.5, Y: 2.75}}, sq},
+		{geom.LineString{{X: 1, Y: 4}, {X: 6, Y: 5}}, ushape},
+		{geom.LineString{{X: 1, Y: 1}, {X: 1, Y: 4}, {X: 6, Y: 5}, {X: 6, Y: 1}}, ushape},
+		{geom.LineString{{X: 1, Y: 1}, {X: 5, Y: 2}}, twins},
+		{geom.LineString{{X: 1, Y: 2}, {X: 2, Y: 1}, {X: 4, Y: 2}, {X: 5, Y: 1}}, twins},
+	} {
+		emit(c.l, c.p)
+		emit(geom.MultiLineString{c.l}, c.p)
+	}
 	for i := 0; i < n; i++ {
 		kind := kinds[i%3]
-		P := shapes.GenShape(r, kind, true).Scale(2, 1, 1)
+		style0 := styleCycle[(i/3)%len(styleCycle)]
+		var P0 shapes.Shape
+		if style0 == 7 {
+			P0 = notchyShape(r, kind)
+		} else {
+			P0 = shapes.GenShape(r, kind, true)
+		}
+		P := P0.Scale(2, 1, 1)
 		dx, dy := 2*int64(r.Range(-4, 4)), 2*int64(r.Range(-4, 4))
 		P = P.Translate(dx, dy)
 		rs := P.Rings()
 		mn, mx, _ := P.BBox()
 		style := styleCycle[(i/3)%len(styleCycle)]
 		members := 1
-		multi := (i/39)%2 == 1
+		multi := (i/45)%2 == 1
 		if multi {
 			members = r.Range(1, 4)
 		}
@@ -257,7 +355,7 @@ func gen(seed uint64, tier string) {
 		for m := 0; m < members; m++ {
 			st := style
 			if m > 0 {
-				st = r.Intn(7)
+				st = r.Intn(8)
 			}
 			for try := 0; try < 12; try++ {
 				p := genPath(r, st, rs, mn, mx)
